@@ -456,7 +456,9 @@ def observe_layout(tree, record, paths, text):
         try:
             sheet = shared_workbook().sheet("")
             sheet.set_schema(schema)
-            wb_obs = [0, sheet.lrecl]
+            # since fix 64e9f81 set_schema keeps lrecl None when from_schema() raises ValueError (an OCCURS DEPENDING ON layout has no
+            # computable length): "no length" travels as that ValueError, which is what from_schema itself reported above
+            wb_obs = [0, sheet.lrecl] if sheet.lrecl is not None else [1, exn_code(ValueError())]
         except BaseException as ex:
             wb_obs = [1, exn_code(ex)]
         if wb_obs != lrecl_obs:
